@@ -231,15 +231,15 @@ func LoadReplay(path string) *ReplayFile {
 }
 
 func init() {
-	bfsCheck("C01", "balance", func() Driver { return NewBalDriver("C01") }, 4, 6, 120, 1000, nil)
-	bfsCheck("C02", "balance-auth", func() Driver { return NewBalDriver("C02") }, 3, 5, 120, 1000, nil)
-	bfsCheck("C04", "container-registry", func() Driver { return NewCntDriver() }, 5, 7, 120, 1000, nil)
+	bfsCheck("C01", "balance", func() Driver { return NewBalDriver("C01") }, 4, 7, 120, 1000, nil)
+	bfsCheck("C02", "balance-auth", func() Driver { return NewBalDriver("C02") }, 4, 6, 120, 1000, nil)
+	bfsCheck("C04", "container-registry", func() Driver { return NewCntDriver() }, 5, 8, 120, 1000, nil)
 	multiBfsCheck("C06", []part{
 		{"netmap-tick", func() Driver { return NewTickDriver("C06") }, 5, 7, 120, 1000},
 		{"netmap-tick-bare", func() Driver { return NewTickDriver("C06bare") }, 4, 6, 40, 300},
 	}, nil)
 	bfsCheck("C07", "netmap-candidates", func() Driver { return NewTickDriver("C07") }, 12, 12, 120, 1000, nil)
-	bfsCheck("C10", "nns-lifecycle", func() Driver { return NewNNSDriver("C10") }, 4, 6, 120, 1000, nil)
+	bfsCheck("C10", "nns-lifecycle", func() Driver { return NewNNSDriver("C10") }, 5, 7, 120, 1000, nil)
 	bfsCheck("C11", "nns-auth", func() Driver { return NewNNSDriver("C11") }, 3, 5, 120, 1000, nil)
 	multiBfsCheck("C12", []part{
 		{"nns-records", func() Driver { return NewNNSDriver("C12r") }, 3, 5, 80, 600},
@@ -285,9 +285,9 @@ func init() {
 					notary bool
 					n      int
 				}{{"neofs-gas-notary-n1", true, 1}, {"neofs-gas-notary-n4", true, 4}, {"neofs-gas-legacy-n1", false, 1}, {"neofs-gas-legacy-n4", false, 4}} {
-					o := Options{Property: "C19", Tier: tier, Seed: seed, Workers: Workers(), Depth: 3, ConfCap: 40, Deadline: 8 * time.Minute}
+					o := Options{Property: "C19", Tier: tier, Seed: seed, Workers: Workers(), Depth: 4, ConfCap: 40, Deadline: 8 * time.Minute}
 					if tier == "thorough" {
-						o.Depth, o.ConfCap, o.Deadline = 5, 200, 60*time.Minute
+						o.Depth, o.ConfCap, o.Deadline = 6, 200, 60*time.Minute
 					}
 					o.Depth = EnvInt("VERIF_DEPTH", o.Depth)
 					o.Params = map[string]any{"depth": o.Depth, "tier": tier, "part": p.name}
